@@ -129,3 +129,93 @@ PROPS.update({
                                          "Miri shards run under Tree Borrows because Stacked Borrows flags bitvec 1.1.1 internals (dependency, not the crate)"],
     },
 })
+
+PROPS.update({
+    "C08": {
+        "level": "exploration",
+        "rule": "index maps satisfying the statement's precondition (strictly increasing offsets, every section's tokens before the next offset): 1..5 sections, empty sections, sections starting mid-line, two sections on one line, nested indexes (<= 3 deep), Hermes sections, unresolved sections, duplicate source names with different contents, ignore lists; built by SourceMapIndex::new or decoded from a document with shuffled sections; ~110 queries per index; non-trivial = >= 2 sections; distinct by model hash",
+        "steps": [MAIN, fast(scale=50), asan(scale=10)],
+        "required_buckets": {"all": ["section-starting-mid-line", "two-sections-on-one-line", "nested-index", "hermes-section", "unresolved-section",
+                                     "empty-section", "mid-line-section-with-tokens-on-first-and-later-lines", "flatten:unresolved-section->Err",
+                                     "flatten:ignored-source-carried", "flatten:range-token-carried", "query:at-section-boundary",
+                                     "query:left-of-column-offset-on-shared-line", "query:before-first-section", "query:later-line",
+                                     "query:past-the-end", "index-and-flattened-agree", "built:decoded(sections shuffled)"]},
+        "assumptions": COMMON_ASSUME,
+    },
+    "C09": {
+        "level": "exploration",
+        "rule": "maps with unique per-token tags, duplicate and unreferenced sources/names, a root, partial contents, sources listed in an order different from first use, x 4 option combinations x 16 prefix sets; Hermes maps (one function map per source name) in a quarter of the cases; non-trivial = >= 2 referenced sources; distinct by hash of (model, options)",
+        "steps": [MAIN, asan(scale=10)],
+        "required_buckets": {"all": ["source-order-differs-from-first-use", "unreferenced-source-with-contents", "two-sources-made-equal-by-stripping",
+                                     "hermes-with-shifted-ids", "hermes-with-resolving-scopes", "contents-carried", "map-with-root",
+                                     "options:names=false,contents=false", "options:names=true,contents=true", "prefixes:several", "prefixes:tilde",
+                                     "prefixes:one-with-slash"]},
+        "assumptions": COMMON_ASSUME + ["for the '~' prefix only 'new name is a suffix of the old one at a / boundary' is asserted (the statement does not pin the common prefix down)"],
+    },
+    "C10": {
+        "level": "exploration",
+        "rule": "pairs (original map, adjustment map): exhaustive over a 2x4 grid (every subset (quick) / multiset (thorough) of <= 3 original tokens x every set of <= 2 adjustment tokens with any source and destination cell), plus random grids up to 6x30 with up to 25 tokens a side and duplicated positions; non-trivial = at least one non-empty overlap; distinct by enumeration / case hash",
+        "exhaustive_claim": True,
+        "steps": [MAIN, fast(scale=30), asan(scale=5)],
+        "required_buckets": {"all": ["adjustment-stretch-inside-original(split)", "original-stretch-swallowed", "original-stretch-without-overlap(disjoint)",
+                                     "tie-at-stretch-start", "negative-column-displacement", "line-displacement",
+                                     "duplicate-position:original-side", "duplicate-position:adjustment-side", "empty-original-map",
+                                     "empty-adjustment-map", "original-stretch-split-over-several-adjustments"]},
+        "assumptions": COMMON_ASSUME + ["where several tokens share a position, any of them may own the non-empty stretch"],
+    },
+    "C12": {
+        "level": "fault_enumeration",
+        "rule": "(document, header, schedule) triples: documents valid of each kind, truncated at every length (small ones), single-byte corruptions; 24 headers (none, each junk byte with LF / CRLF / bare CR, garbage, CR inside, CRCRLF, header only); schedules: 1-byte reads, fixed 2/3/7/8191/8192/8193, a two-chunk boundary at every offset of header + 16 bytes, random short reads, one big read; plus the data URL of every byte string with and without charset parameter; non-trivial = header present or >= 2 chunks; distinct by hash of (bytes, schedule)",
+        "steps": [MAIN, asan(scale=10), miri(tiers=("thorough",))],
+        "required_buckets": {"all": ["schedule:boundary:inside", "schedule:boundary:before", "schedule:boundary:exactly", "schedule:1", "schedule:fixed",
+                                     "schedule:random", "bare-CR-header", "header-never-ends", "both-err:truncated", "both-ok:regular",
+                                     "both-ok:index", "both-ok:hermes", "header-skipped:classic+CRLF", "header-skipped:classic+LF",
+                                     "header-skipped:junk-byte+LF", "data-url:both-ok", "data-url:both-err"]},
+        "assumptions": COMMON_ASSUME + ["the chunked reader never returns 0 before the end of the data"],
+    },
+    "C13": {
+        "level": "exploration",
+        "rule": "short histories (3..40 builder calls, or 2..25 setter / save+load operations on a map) over string pools with duplicates, empty strings, absolute paths, URLs, roots with and without trailing '/'; a ~60-line sequential interning model is the oracle, checked after every call (returned ids) and after every prefix (map histories); non-trivial = >= 5 operations including a duplicate add or a root change; distinct by history hash",
+        "steps": [MAIN, asan(scale=10)],
+        "required_buckets": {"all": ["history:builder", "history:map-setters", "map:root-set", "map:root-cleared", "map:root-set-empty",
+                                     "map:root-set-then-set_source", "map:reload-with-root", "duplicate-source-re-added-after-other-inserts",
+                                     "contents-set-before-later-sources-were-added", "builder:finished-with-root"]},
+        "assumptions": COMMON_ASSUME,
+    },
+    "C14": {
+        "level": "exploration",
+        "rule": "Hermes documents written by the reference Metro encoder (1..5 sources, function maps with 0..14 entries over several lines, 1/2/3-field segments, null / empty / extra metadata, name indices out of range, unparsable mapping strings), half of the tokens aimed at / next to entries; every token and ~100 bytecode offsets resolved; non-trivial = >= 2 entries and >= 1 token; distinct by model hash",
+        "steps": [MAIN, asan(scale=10)],
+        "required_buckets": {"all": ["segment-with-1-field(s)", "segment-with-2-field(s)", "segment-with-3-field(s)", "entry-exactly-at-token-position",
+                                     "token-before-first-entry->None", "broken-function-map-next-to-a-good-one", "round-trip-checked",
+                                     "null-entry", "empty-metadata-array", "extra-metadata-after-the-first", "name-index-out-of-range->None",
+                                     "token-resolving-to-a-name", "function-map-with-several-lines"]},
+        "assumptions": COMMON_ASSUME + ["Metro's format as described in harness/src/reference/metro.rs (column resets per ';', name index and line run over the whole string, lines start at 1)"],
+    },
+    "C15": {
+        "level": "exploration",
+        "rule": "every text over {a, e-acute, astral emoji, space, LF, CR} of length 0..6 (quick) / 0..8 (thorough), each under 9 request orders on fresh/cloned views, and every (line, column, span) triple with column, span <= units+2 plus 2^31 and 2^32-1; random longer texts; non-trivial = >= 2 lines or a non-ASCII character; distinct by enumeration / text hash",
+        "exhaustive_claim": True,
+        "steps": [MAIN, fast(scale=50), miri(mode="miri"), asan(scale=50), valgrind(mode="valgrind")],
+        "required_buckets": {"all": ["terminator:LF-at-start", "terminator:LF-at-end", "terminator:LF-doubled", "terminator:CR-at-start",
+                                     "terminator:CR-at-end", "terminator:CR-doubled", "terminator:CRLF-at-start", "terminator:CRLF-at-end",
+                                     "terminator:CRLF-doubled", "order:late-line-first", "order:request-after-exhaustion", "order:clone-midway",
+                                     "slice:astral-char-inside-slice", "slice:line-shorter-than-c+n->None", "slice:extreme-triple",
+                                     "slice:column-inside-surrogate-pair(both readings accepted)", "empty-text"]},
+        "assumptions": COMMON_ASSUME + ["a column that falls on the second unit of a surrogate pair may or may not include that character (both readings accepted)"],
+    },
+    "C16": {
+        "level": "exploration",
+        "rule": "schedules of 2..4 real threads sharing one SourceView, every lock attempt / unlock / atomic operation a yield point: all schedules with <= 3 preemptions (quick) / unbounded (thorough) for every ordered pair of calls on 6 texts (2 threads x 1 call), bounded enumeration for sampled 2x2 and 3x1 scenarios, random schedules for 2x3..4x3; plus free-running rounds of 2..8 threads; non-trivial = schedule with >= 1 preemption (calls genuinely interleaved) or a free-running round; distinct by hash of (scenario, sequence of scheduled worker ids)",
+        "exhaustive_claim": False,
+        "hang_is_violation": True,
+        "steps": [MAIN,
+                  miri(mode="miri", nshards=16, flags="-Zmiri-disable-isolation -Zmiri-many-seeds=0..8", tiers=("quick",), timeout=3000),
+                  dict(miri(mode="miri", nshards=16, flags="-Zmiri-disable-isolation -Zmiri-many-seeds=0..64", tiers=("thorough",), timeout=20000), name="miri"),
+                  {"name": "tsan", "flavour": "tsan", "mode": "stress", "tiers": ("thorough",), "scale": 50}],
+        "required_buckets": {"all": ["schedule-with-interleaved-calls", "preempted-at:lock", "preempted-at:atomic-load", "preempted-at:unlocked",
+                                     "sampled:4x3", "sampled:3x2", "free-running:8-threads", "free-running:2-threads"]},
+        "assumptions": COMMON_ASSUME + ["yield points are the lock/atomic operations of the view (verif_hooks); between two yield points exactly one controlled thread runs",
+                                         "native runs see x86-64 memory ordering; Relaxed reorderings are explored only by the Miri shard"],
+    },
+})
